@@ -232,18 +232,80 @@ def choose_lits(k, op, shape, npool, rng, boundary_p):
     return lits
 
 
-def make_case(op, sym, k, sa, sb, rng, stream, label, budget=4, unary=False, boundary_p=0.5, prelude=None, litsA=None, litsB=None):
+def lit_int(l):
+    v = int(l)
+    if abs(v) >= 2 ** 53:          # integer literals go through f64 (C13); typed definitions saturate
+        v = int(float(v))
+    return v
+
+
+def defined_exactly(op, k, la, lb):
+    """does `la op lb` have an exact result representable in kind k (python's view; only used to steer the
+    generator away from producing mostly overflow cases — the decision is the Coq judge's)"""
+    try:
+        if k in INTS:
+            lo, hi = irange(k)
+            a, b = max(lo, min(hi, lit_int(la))), max(lo, min(hi, lit_int(lb)))
+            if op == "add": r = a + b
+            elif op == "sub": r = a - b
+            elif op == "mul": r = a * b
+            elif op == "neg": r = -a
+            elif op == "div":
+                if b == 0: return False
+                r = abs(a) // abs(b)
+            elif op == "mod":
+                return b != 0
+            elif op == "pow":
+                if b > 200 and abs(a) > 1: return False
+                r = a ** b
+            else:
+                return True
+            return lo <= r <= hi
+        if k == "r64":
+            from fractions import Fraction
+            a, b = Fraction(la), Fraction(lb)
+            if op == "add": r = a + b
+            elif op == "sub": r = a - b
+            elif op == "mul": r = a * b
+            elif op == "neg": r = -a
+            elif op == "div":
+                if b == 0: return False
+                r = a / b
+            else:
+                return True
+            return abs(r.numerator) < 2 ** 63 and r.denominator < 2 ** 63
+    except Exception:
+        return True
+    return True
+
+
+def make_case(op, sym, k, sa, sb, rng, stream, label, budget=4, unary=False, boundary_p=0.5, prelude=None, litsA=None, litsB=None,
+              p_undefined=0.12):
     na, nb = nelem(sa), nelem(sb)
+    if unary:
+        sb, nb = "s", 1
+    bs0 = bshape(sa, sb)
     if litsA is None:
-        pa = rng.choice([1, 2, 2, 3]) if na > 1 else 1
-        pb = rng.choice([1, 2, 2, 3]) if nb > 1 else 1
-        while pa * pb > budget:
-            if pa >= pb: pa -= 1
-            else: pb -= 1
-        litsA = choose_lits(k, op, sa, pa, rng, boundary_p)
-        litsB = choose_lits(k, None if op != "pow" else op, sb, pb, rng, boundary_p)
-        if op in ("div", "mod") and k in INTS and rng.random() < 0.8:
-            litsB = [("1" if l == "0" else l) for l in litsB]
+        want_undefined = rng.random() < p_undefined
+        bp = boundary_p
+        for attempt in range(25):
+            pa = rng.choice([1, 2, 2, 3]) if na > 1 else 1
+            pb = rng.choice([1, 2, 2, 3]) if nb > 1 else 1
+            while pa * pb > budget:
+                if pa >= pb: pa -= 1
+                else: pb -= 1
+            litsA = choose_lits(k, op, sa, pa, rng, bp)
+            litsB = [litsA[0]] if unary else choose_lits(k, None if op != "pow" else op, sb, pb, rng, bp)
+            if want_undefined or not (k in INTS or k == "r64"):
+                break
+            if bs0 is not None:
+                R, C = (1, 1) if bs0 == "s" else bs0
+                prs = {(litsA[bidx(sa, i, j)], litsB[bidx(sb, i, j)]) for j in range(C) for i in range(R)}
+            else:
+                prs = {(litsA[i], litsB[i]) for i in range(min(na, nb))}
+            if all(defined_exactly(op, k, x, y) for x, y in prs):
+                break
+            bp *= 0.7
     if unary:
         sb, litsB = "s", [litsA[0]]
     defs = ([prelude] if prelude else []) + [def_operand("a", k, sa, litsA), def_operand("b", k, sb, litsB)]
